@@ -68,6 +68,8 @@ pub fn exec_doc(line: &str) -> String {
         "meta" => twice::<MetadataV3>(&text),
         "adoc" => twice::<ArrayMetadataV3>(&text),
         "gdoc" => twice::<GroupMetadataV3>(&text),
+        "a2doc" => twice::<zarrs::metadata::v2::ArrayMetadataV2>(&text),
+        "g2doc" => twice::<zarrs::metadata::v2::GroupMetadataV2>(&text),
         "aopen" => {
             let sc = make_store("memory");
             let store: DynStore = sc.store.clone();
@@ -82,6 +84,21 @@ pub fn exec_doc(line: &str) -> String {
             };
             let ops = exercise(&a);
             format!("ok meta={} stored={} stored2={} ops={}", hex(meta.as_bytes()), hex(stored.as_bytes()), stored2, ops)
+        }
+        "a2open" => {
+            // a V2 array: .zarray stored, opened, stored again through the API, re-opened
+            let sc = make_store("memory");
+            let store: DynStore = sc.store.clone();
+            store.set(&key("a/.zarray"), text.clone().into()).unwrap();
+            let a = match Array::open(store.clone(), "/a") { Ok(a) => a, Err(e) => { if std::env::var("VERIF_ERR_MSG").is_ok() { eprintln!("ERR: {}", e); } return "rej-open".into() } };
+            if a.store_metadata().is_err() { return "err-store".into(); }
+            let stored = compact(&store.get(&key("a/.zarray")).unwrap().unwrap()).unwrap_or_default();
+            let re = match Array::open(store.clone(), "/a") {
+                Ok(b) => { if b.store_metadata().is_err() { "err-store".to_string() } else { hex(compact(&store.get(&key("a/.zarray")).unwrap().unwrap()).unwrap_or_default().as_bytes()) } }
+                Err(e) => { if std::env::var("VERIF_ERR_MSG").is_ok() { eprintln!("ERR: {}", e); } "rej-reopen".to_string() }
+            };
+            let ops = exercise(&a);
+            format!("ok stored={} stored2={} ops={}", hex(stored.as_bytes()), re, ops)
         }
         "gopen" => {
             let sc = make_store("memory");
@@ -186,4 +203,304 @@ pub fn exec_op(ctx: &HCtx, verb: &str, m: &BTreeMap<String, String>) -> String {
     })
 }
 
-pub fn generate(_tier: &str, _seed: u64) -> Vec<String> { vec![] }
+
+// ---------------------------------------------------------------- generation
+
+fn jstr(s: &str) -> String { serde_json::to_string(s).unwrap() }
+
+fn rand_name(rng: &mut Rng) -> String {
+    let pool = ["x", "a", "zz", "key", "must_understand", "name", "é", "日本", "a b", "q\"uote", "back\\slash", "_zarrs", "shape", "A", "b1", "", "tab\there", "😀"];
+    rng.pick(&pool).to_string()
+}
+
+/// canonical JSON values: numbers are written the way serde_json prints them
+fn rand_value(rng: &mut Rng, depth: u32) -> String {
+    let k = if depth == 0 { rng.below(6) } else { rng.below(9) };
+    match k {
+        0 => "null".into(),
+        1 => (if rng.chance(1, 2) { "true" } else { "false" }).into(),
+        2 => rng.pick(&["0", "1", "-1", "255", "4294967296", "18446744073709551615", "-9223372036854775808", "42"]).to_string(),
+        3 => rng.pick(&["1.5", "-0.0", "0.1", "1e-7", "2.5e+30", "1.0", "123456.789"]).to_string(),
+        4 | 5 => jstr(&rand_name(rng)),
+        6 => { let n = rng.below(4); format!("[{}]", (0..n).map(|_| rand_value(rng, depth - 1)).collect::<Vec<_>>().join(",")) }
+        _ => rand_obj(rng, depth - 1, false),
+    }
+}
+fn rand_obj(rng: &mut Rng, depth: u32, allow_mu: bool) -> String {
+    let n = rng.below(5);
+    let mut keys: Vec<String> = vec![];
+    let mut parts = vec![];
+    for _ in 0..n {
+        let k = rand_name(rng);
+        if keys.contains(&k) || (!allow_mu && k == "must_understand") { continue; }
+        keys.push(k.clone());
+        parts.push(format!("{}:{}", jstr(&k), rand_value(rng, depth)));
+    }
+    format!("{{{}}}", parts.join(","))
+}
+
+/// MetadataV3 forms for a name with an (optional) configuration text
+fn meta_forms(rng: &mut Rng, name: &str, cfg: Option<&str>) -> String {
+    let n = jstr(name);
+    match cfg {
+        None => match rng.below(5) {
+            0 | 1 => n,
+            2 => format!("{{\"name\":{}}}", n),
+            3 => format!("{{\"name\":{},\"configuration\":{{}}}}", n),
+            _ => format!("{{\"configuration\":{{}},\"name\":{}}}", n),
+        },
+        Some(c) => match rng.below(4) {
+            0 | 1 => format!("{{\"name\":{},\"configuration\":{}}}", n, c),
+            2 => format!("{{\"configuration\":{},\"name\":{}}}", c, n),
+            _ => format!("{{\"name\":{},\"configuration\":{},\"must_understand\":true}}", n, c),
+        },
+    }
+}
+
+struct Doc { fields: Vec<(String, String)>, plug_ok: bool }
+impl Doc {
+    fn text(&self) -> String { format!("{{{}}}", self.fields.iter().map(|(k, v)| format!("{}:{}", jstr(k), v)).collect::<Vec<_>>().join(",")) }
+    fn set(&mut self, k: &str, v: String) { if let Some(f) = self.fields.iter_mut().find(|f| f.0 == k) { f.1 = v; } else { self.fields.push((k.to_string(), v)); } }
+    fn remove(&mut self, k: &str) { self.fields.retain(|f| f.0 != k); }
+}
+
+fn gen_array_doc(rng: &mut Rng) -> Doc {
+    let rank = rng.below(4) as usize;
+    let shape: Vec<u64> = (0..rank).map(|_| rng.range(0, 5)).collect();
+    let chunk: Vec<u64> = (0..rank).map(|_| rng.range(1, 3)).collect();
+    let dts: [(&str, &[&str]); 7] = [("uint8", &["0", "255", "7"]), ("int16", &["0", "-2", "32767"]), ("float32", &["0.0", "\"NaN\"", "1.5", "\"Infinity\"", "\"0x7fc00001\""]),
+        ("float64", &["0.0", "-0.0", "\"-Infinity\""]), ("bool", &["true", "false"]), ("complex64", &["[0.0,1.5]", "[\"NaN\",0.0]"]), ("r16", &["[0,1]", "[255,255]"])];
+    let (dt, fills) = *rng.pick(&dts);
+    let mut d = Doc { fields: vec![], plug_ok: true };
+    d.fields.push(("zarr_format".into(), "3".into()));
+    d.fields.push(("node_type".into(), "\"array\"".into()));
+    d.fields.push(("shape".into(), format!("[{}]", shape.iter().map(|x| x.to_string()).collect::<Vec<_>>().join(","))));
+    d.fields.push(("data_type".into(), meta_forms(rng, dt, None)));
+    d.fields.push(("chunk_grid".into(), meta_forms(rng, "regular", Some(&format!("{{\"chunk_shape\":[{}]}}", chunk.iter().map(|x| x.to_string()).collect::<Vec<_>>().join(","))))));
+    let cke = match rng.below(5) {
+        0 => "\"default\"".to_string(),
+        1 => meta_forms(rng, "default", Some("{\"separator\":\".\"}")),
+        2 => meta_forms(rng, "v2", Some("{\"separator\":\"/\"}")),
+        3 => "\"v2\"".to_string(),
+        _ => meta_forms(rng, "default", Some("{\"separator\":\"/\"}")),
+    };
+    d.fields.push(("chunk_key_encoding".into(), cke));
+    d.fields.push(("fill_value".into(), rng.pick(fills).to_string()));
+    // codecs
+    let mut codecs: Vec<String> = vec![];
+    if rank >= 1 && rng.chance(1, 4) && dt != "r16" {
+        let mut order: Vec<usize> = (0..rank).collect();
+        for i in (1..rank).rev() { let j = rng.below(i as u64 + 1) as usize; order.swap(i, j); }
+        codecs.push(format!("{{\"name\":\"transpose\",\"configuration\":{{\"order\":[{}]}}}}", order.iter().map(|x| x.to_string()).collect::<Vec<_>>().join(",")));
+    }
+    let single_byte = matches!(dt, "uint8" | "bool");
+    codecs.push(match rng.below(4) {
+        0 if single_byte => "\"bytes\"".to_string(),
+        1 if single_byte => "{\"name\":\"bytes\"}".to_string(),
+        2 => "{\"name\":\"bytes\",\"configuration\":{\"endian\":\"big\"}}".to_string(),
+        _ => "{\"name\":\"bytes\",\"configuration\":{\"endian\":\"little\"}}".to_string(),
+    });
+    if rng.chance(1, 3) { codecs.push(rng.pick(&["{\"name\":\"gzip\",\"configuration\":{\"level\":5}}", "\"crc32c\"", "{\"name\":\"crc32c\"}", "{\"name\":\"crc32c\",\"configuration\":{}}", "{\"name\":\"zstd\",\"configuration\":{\"level\":1,\"checksum\":true}}"]).to_string()); }
+    if rng.chance(1, 6) {
+        // an unknown codec that need not be understood is skipped
+        let at = rng.below(codecs.len() as u64 + 1) as usize;
+        codecs.insert(at, "{\"name\":\"unknown_codec\",\"configuration\":{\"a\":1},\"must_understand\":false}".to_string());
+    }
+    d.fields.push(("codecs".into(), format!("[{}]", codecs.join(","))));
+    // optional fields
+    if rng.chance(2, 3) { let a = if rng.chance(1, 6) { "{}".to_string() } else { rand_obj(rng, 3, true) }; d.fields.push(("attributes".into(), a)); }
+    if rng.chance(1, 5) { d.fields.push(("storage_transformers".into(), "[]".into())); }
+    if rng.chance(1, 2) {
+        let dn = if rng.chance(1, 6) { "null".to_string() } else { format!("[{}]", (0..rank).map(|_| if rng.chance(1, 3) { "null".to_string() } else { jstr(&rand_name(rng)) }).collect::<Vec<_>>().join(",")) };
+        d.fields.push(("dimension_names".into(), dn));
+    }
+    // additional fields that need not be understood
+    for _ in 0..rng.below(4) {
+        let k = rng.pick(&["extra", "zzz", "Aux", "é", "b", "a_field", "consolidated_metadata", "~", "0"]).to_string();
+        if d.fields.iter().any(|f| f.0 == k) { continue; }
+        let mut o = rand_obj(rng, 2, false);
+        // put "must_understand": false somewhere in the object
+        let inner = o[1..o.len() - 1].to_string();
+        let mut parts: Vec<String> = if inner.is_empty() { vec![] } else { split_top(&inner) };
+        let at = rng.below(parts.len() as u64 + 1) as usize;
+        parts.insert(at, "\"must_understand\":false".into());
+        o = format!("{{{}}}", parts.join(","));
+        d.fields.push((k, o));
+    }
+    // shuffle the field order sometimes
+    if rng.chance(1, 2) { for i in (1..d.fields.len()).rev() { let j = rng.below(i as u64 + 1) as usize; d.fields.swap(i, j); } }
+    d
+}
+
+/// split the inside of an object/array text at top-level commas
+fn split_top(s: &str) -> Vec<String> {
+    let mut out = vec![]; let mut depth = 0i32; let mut in_str = false; let mut esc = false; let mut cur = String::new();
+    for c in s.chars() {
+        if in_str { cur.push(c); if esc { esc = false; } else if c == '\\' { esc = true; } else if c == '"' { in_str = false; } continue; }
+        match c { '"' => { in_str = true; cur.push(c); } '[' | '{' => { depth += 1; cur.push(c); } ']' | '}' => { depth -= 1; cur.push(c); }
+            ',' if depth == 0 => { out.push(std::mem::take(&mut cur)); } _ => cur.push(c) }
+    }
+    if !cur.is_empty() { out.push(cur); }
+    out
+}
+
+/// break a valid document in one way; returns a label
+fn mutate_doc(rng: &mut Rng, d: &mut Doc) -> &'static str {
+    d.plug_ok = false;
+    match rng.below(22) {
+        0 => { d.set("zarr_format", rng.pick(&["2", "\"3\"", "3.0", "4", "null"]).to_string()); "zarr_format" }
+        1 => { d.set("node_type", rng.pick(&["\"group\"", "\"Array\"", "3", "null"]).to_string()); "node_type" }
+        2 => { let k = rng.pick(&["zarr_format", "node_type", "shape", "data_type", "chunk_grid", "chunk_key_encoding", "fill_value", "codecs"]).to_string(); d.remove(&k); "missing" }
+        3 => { d.set("shape", rng.pick(&["[1.0]", "[-1]", "\"x\"", "null", "[\"1\"]", "[18446744073709551616]", "{}"]).to_string()); "shape-type" }
+        4 => { let cur = d.fields.iter().find(|f| f.0 == "shape").map(|f| f.1.clone()).unwrap_or_default(); let n = if cur == "[]" { "[1]".to_string() } else { format!("[{},1]", &cur[1..cur.len() - 1]) }; d.set("shape", n); "rank-shape" }
+        5 => { d.set("dimension_names", rng.pick(&["[\"a\",\"b\",\"c\",\"d\",\"e\"]", "[1]", "\"x\"", "{}"]).to_string()); "dimnames" }
+        6 => { d.set("data_type", rng.pick(&["\"unknown_type\"", "{\"name\":\"unknown_type\",\"must_understand\":false}", "3", "{\"nam\":\"uint8\"}", "{\"name\":\"uint8\",\"extra\":1}", "{\"name\":3}", "null", "[]", "{\"name\":\"uint8\",\"configuration\":3}", "{\"name\":\"uint8\",\"must_understand\":1}"]).to_string()); "data_type" }
+        7 => { d.set("chunk_grid", rng.pick(&["\"regular\"", "{\"name\":\"regular\",\"configuration\":{\"chunk_shape\":[0]}}", "{\"name\":\"unknown_grid\",\"configuration\":{}}", "{\"name\":\"regular\",\"configuration\":{\"chunk_shape\":[1],\"x\":1}}", "{\"name\":\"regular\",\"configuration\":{\"chunk_shape\":[1,1,1,1,1,1]}}", "null"]).to_string()); "chunk_grid" }
+        8 => { d.set("chunk_key_encoding", rng.pick(&["\"unknown\"", "{\"name\":\"default\",\"configuration\":{\"separator\":\"x\"}}", "{\"name\":\"unknown\",\"must_understand\":false}", "7"]).to_string()); "cke" }
+        9 => { d.set("fill_value", rng.pick(&["null", "\"abc\"", "[1,2,3,4,5]", "1e400", "-1", "256", "1.5", "true", "{}"]).to_string()); d.plug_ok = false; "fill" }
+        10 => { d.set("codecs", rng.pick(&["[]", "[\"gzip\"]", "[\"bytes\",\"bytes\"]", "[{\"name\":\"unknown_codec\"}]", "[{\"name\":\"unknown_codec\",\"must_understand\":false}]", "\"bytes\"", "[{\"name\":\"bytes\",\"configuration\":{\"endian\":\"middle\"}}]", "[{\"name\":\"transpose\",\"configuration\":{\"order\":[0,0]}},\"bytes\"]", "[{\"name\":\"transpose\",\"configuration\":{\"order\":[5,4,3,2,1,0]}},\"bytes\"]", "[\"bytes\",{\"name\":\"gzip\",\"configuration\":{\"level\":99}}]", "[{\"name\":\"sharding_indexed\",\"configuration\":{\"chunk_shape\":[7,7,7],\"codecs\":[\"bytes\"],\"index_codecs\":[\"bytes\"]}}]", "[{\"name\":\"sharding_indexed\",\"configuration\":{\"chunk_shape\":[1],\"codecs\":[],\"index_codecs\":[\"bytes\"]}}]", "[{\"name\":\"sharding_indexed\",\"configuration\":{\"chunk_shape\":[1],\"codecs\":[\"bytes\"],\"index_codecs\":[\"bytes\",\"gzip\"]}}]", "[\"bytes\",{\"name\":\"blosc\",\"configuration\":{\"cname\":\"lz4\",\"clevel\":5,\"shuffle\":\"shuffle\",\"typesize\":0,\"blocksize\":0}}]", "[{\"name\":\"bytes\"},{\"name\":\"zfp\"}]", "[{\"name\":\"packbits\"}]", "[{\"name\":\"vlen\"}]", "[{\"name\":\"vlen-utf8\"}]", "[{\"name\":\"bitround\",\"configuration\":{\"keepbits\":3}},{\"name\":\"bytes\",\"configuration\":{\"endian\":\"little\"}}]", "[{\"name\":\"squeeze\"},{\"name\":\"bytes\",\"configuration\":{\"endian\":\"little\"}}]"]).to_string()); "codecs" }
+        11 => { d.set("attributes", rng.pick(&["null", "[]", "3", "\"x\""]).to_string()); "attributes-type" }
+        12 => { d.set("storage_transformers", rng.pick(&["[\"unknown_transformer\"]", "[{\"name\":\"unknown\",\"must_understand\":false}]", "null", "{}"]).to_string()); "storage_transformers" }
+        13 => { let v = rng.pick(&["1", "\"s\"", "[]", "null", "true", "{\"a\":1}", "{\"must_understand\":true,\"a\":1}", "{\"must_understand\":1}", "{\"must_understand\":\"false\"}", "{\"must_understand\":null,\"b\":2}"]).to_string(); d.fields.push((rng.pick(&["unknown_field", "zz", "Extra"]).to_string(), v)); "must-understand-field" }
+        14 => { let i = rng.below(d.fields.len() as u64) as usize; let f = d.fields[i].clone(); d.fields.push(f); d.plug_ok = true; "duplicate-key" }
+        _ => { d.plug_ok = true; "none" }
+    }
+}
+
+fn gen_group_doc(rng: &mut Rng) -> Doc {
+    let mut d = Doc { fields: vec![("zarr_format".into(), "3".into()), ("node_type".into(), "\"group\"".into())], plug_ok: true };
+    if rng.chance(2, 3) { let a = if rng.chance(1, 6) { "{}".to_string() } else { rand_obj(rng, 3, true) }; d.fields.push(("attributes".into(), a)); }
+    for _ in 0..rng.below(4) {
+        let k = rng.pick(&["extra", "zzz", "Aux", "é", "b", "shape", "codecs", "0"]).to_string();
+        if d.fields.iter().any(|f| f.0 == k) { continue; }
+        let o = rand_obj(rng, 2, false);
+        let inner = o[1..o.len() - 1].to_string();
+        let mut parts: Vec<String> = if inner.is_empty() { vec![] } else { split_top(&inner) };
+        let at = rng.below(parts.len() as u64 + 1) as usize;
+        parts.insert(at, "\"must_understand\":false".into());
+        d.fields.push((k, format!("{{{}}}", parts.join(","))));
+    }
+    match rng.below(12) {
+        0 => { d.set("zarr_format", rng.pick(&["2", "\"3\"", "3.0"]).to_string()); }
+        1 => { d.set("node_type", rng.pick(&["\"array\"", "\"Group\"", "null"]).to_string()); }
+        2 => { let k = rng.pick(&["zarr_format", "node_type"]).to_string(); d.remove(&k); }
+        3 => { d.set("attributes", rng.pick(&["null", "[]", "3"]).to_string()); }
+        4 => { let v = rng.pick(&["1", "\"s\"", "[]", "{\"a\":1}", "{\"must_understand\":true}", "{\"must_understand\":0}"]).to_string(); d.fields.push(("unknown_field".into(), v)); }
+        _ => {}
+    }
+    if rng.chance(1, 2) { for i in (1..d.fields.len()).rev() { let j = rng.below(i as u64 + 1) as usize; d.fields.swap(i, j); } }
+    d
+}
+
+pub fn generate(tier: &str, seed: u64) -> Vec<String> {
+    let thorough = tier == "thorough";
+    let mut rng = Rng::new(seed ^ 0xC13);
+    let mut out: Vec<String> = vec![];
+    let n = if thorough { 12000 } else { 1200 };
+    // MetadataV3 forms
+    let fixed = ["\"x\"", "{\"name\":\"x\"}", "{\"name\":\"x\",\"configuration\":{}}", "{\"name\":\"x\",\"configuration\":null}", "{\"name\":\"x\",\"must_understand\":false}",
+        "{\"name\":\"x\",\"must_understand\":true}", "{\"name\":\"x\",\"configuration\":{},\"must_understand\":false}", "{\"name\":\"x\",\"configuration\":{\"a\":[1,{\"b\":null}]},\"must_understand\":false}",
+        "{\"must_understand\":false,\"configuration\":{\"z\":1,\"a\":2},\"name\":\"x\"}", "{\"name\":\"x\",\"configuration\":3}", "{\"name\":\"x\",\"configuration\":[]}", "{\"name\":3}", "{\"nam\":\"x\"}",
+        "{\"name\":\"x\",\"extra\":1}", "{\"name\":\"x\",\"must_understand\":1}", "{\"name\":\"x\",\"must_understand\":null}", "{}", "[]", "3", "null", "true", "\"\"", "{\"name\":\"\"}", "{\"name\":\"é\\u0000\\n\",\"configuration\":{\"é\":\"日本\"}}"];
+    for t in fixed { out.push(format!("c13 meta text={}", hex(t.as_bytes()))); }
+    for _ in 0..n / 4 {
+        let name = rand_name(&mut rng);
+        let t = match rng.below(6) {
+            0 => jstr(&name),
+            1 => format!("{{\"name\":{}}}", jstr(&name)),
+            2 => format!("{{\"name\":{},\"configuration\":{}}}", jstr(&name), rand_obj(&mut rng, 3, true)),
+            3 => format!("{{\"name\":{},\"configuration\":{},\"must_understand\":{}}}", jstr(&name), rand_obj(&mut rng, 2, true), rng.pick(&["true", "false"])),
+            4 => format!("{{\"must_understand\":{},\"name\":{}}}", rng.pick(&["true", "false"]), jstr(&name)),
+            _ => rand_value(&mut rng, 2),
+        };
+        out.push(format!("c13 meta text={}", hex(t.as_bytes())));
+    }
+    // array documents
+    for i in 0..n {
+        let mut d = gen_array_doc(&mut rng);
+        let label = if i % 3 == 2 { mutate_doc(&mut rng, &mut d) } else { "none" };
+        let t = d.text();
+        // a repeated key of a typed field is rejected by serde (the JSON model merges it): flagged for the driver
+        let known = ["zarr_format", "node_type", "shape", "data_type", "chunk_grid", "chunk_key_encoding", "fill_value", "codecs", "attributes", "storage_transformers", "dimension_names"];
+        let dup = known.iter().any(|k| d.fields.iter().filter(|f| f.0 == *k).count() > 1);
+        out.push(format!("c13 adoc dup={} text={}", dup as u8, hex(t.as_bytes())));
+        out.push(format!("c13 aopen plug={} mut={} dup={} text={}", if d.plug_ok { "ok" } else { "unk" }, label, dup as u8, hex(t.as_bytes())));
+    }
+    for _ in 0..n / 3 {
+        let d = gen_group_doc(&mut rng);
+        let t = d.text();
+        out.push(format!("c13 gdoc text={}", hex(t.as_bytes())));
+        out.push(format!("c13 gopen text={}", hex(t.as_bytes())));
+    }
+    // V2 documents: re-serialising a parsed document must be a fixed point (no model; judged on ser == ser2)
+    for _ in 0..n / 3 {
+        let rank = rng.below(3) as usize;
+        let dims = |rng: &mut Rng, lo: u64| format!("[{}]", (0..rank).map(|_| rng.range(lo, 4).to_string()).collect::<Vec<_>>().join(","));
+        let mut f: Vec<(String, String)> = vec![
+            ("zarr_format".into(), "2".into()), ("shape".into(), dims(&mut rng, 0)), ("chunks".into(), dims(&mut rng, 1)),
+            ("dtype".into(), rng.pick(&["\"<f4\"", "\"|u1\"", "\">i2\"", "\"<f8\"", "\"|b1\"", "\"<c8\"", "\"|S3\"", "[[\"a\",\"<i4\"],[\"b\",\"<f8\"]]"]).to_string()),
+            ("compressor".into(), rng.pick(&["null", "{\"id\":\"zlib\",\"level\":1}", "{\"id\":\"gzip\",\"level\":5}", "{\"id\":\"blosc\",\"cname\":\"lz4\",\"clevel\":5,\"shuffle\":1,\"blocksize\":0}", "{\"id\":\"unknown\",\"z\":1,\"a\":{\"k\":[1,2]}}", "{\"level\":1,\"id\":\"zstd\"}"]).to_string()),
+            ("fill_value".into(), rng.pick(&["0", "null", "\"NaN\"", "\"Infinity\"", "1.5", "\"AAA=\"", "-1", "true"]).to_string()),
+            ("order".into(), rng.pick(&["\"C\"", "\"F\""]).to_string()),
+            ("filters".into(), rng.pick(&["null", "[]", "[{\"id\":\"shuffle\",\"elementsize\":4}]", "[{\"id\":\"delta\",\"dtype\":\"<f4\"},{\"elementsize\":2,\"id\":\"shuffle\"}]"]).to_string()),
+        ];
+        let clean = rng.chance(3, 5);
+        if clean {
+            // a document zarrs supports: it must open, be stored again and re-open
+            let (dt, fills): (&str, &[&str]) = *rng.pick(&[("\"<f4\"", &["0", "\"NaN\"", "1.5", "\"Infinity\""][..]), ("\"|u1\"", &["0", "7"][..]), ("\">i2\"", &["0", "-1"][..]), ("\"<f8\"", &["0.0", "\"-Infinity\""][..]), ("\"|b1\"", &["0", "1"][..])]);
+            f[3].1 = dt.to_string();
+            f[4].1 = rng.pick(&["null", "{\"id\":\"zlib\",\"level\":1}", "{\"id\":\"gzip\",\"level\":5}", "{\"id\":\"blosc\",\"cname\":\"lz4\",\"clevel\":5,\"shuffle\":1,\"blocksize\":0}", "{\"level\":1,\"id\":\"zstd\"}", "{\"id\":\"bz2\",\"level\":5}"]).to_string();
+            f[5].1 = rng.pick(fills).to_string();
+            f[7].1 = rng.pick(&["null", "[]"]).to_string();
+            if rank == 0 { f[6].1 = "\"C\"".to_string(); }
+        }
+        if rng.chance(1, 2) { f.push(("dimension_separator".into(), rng.pick(&["\".\"", "\"/\""]).to_string())); }
+        if clean {
+            if rng.chance(1, 3) { f.push(("attributes".into(), rand_obj(&mut rng, 2, true))); }
+            if rng.chance(1, 2) { for i in (1..f.len()).rev() { let j = rng.below(i as u64 + 1) as usize; f.swap(i, j); } }
+            let t = format!("{{{}}}", f.iter().map(|(k, v)| format!("{}:{}", jstr(k), v)).collect::<Vec<_>>().join(","));
+            out.push(format!("c13 a2doc text={}", hex(t.as_bytes())));
+            out.push(format!("c13 a2open clean=1 text={}", hex(t.as_bytes())));
+            continue;
+        }
+        if rng.chance(1, 3) { f.push(("attributes".into(), rand_obj(&mut rng, 2, true))); }
+        if rng.chance(1, 3) { f.push((rng.pick(&["extra", "zz"]).to_string(), rand_value(&mut rng, 2))); }
+        if rng.chance(1, 8) { let i = rng.below(f.len() as u64) as usize; f.remove(i); }
+        if rng.chance(1, 2) { for i in (1..f.len()).rev() { let j = rng.below(i as u64 + 1) as usize; f.swap(i, j); } }
+        let t = format!("{{{}}}", f.iter().map(|(k, v)| format!("{}:{}", jstr(k), v)).collect::<Vec<_>>().join(","));
+        out.push(format!("c13 a2doc text={}", hex(t.as_bytes())));
+        out.push(format!("c13 a2open text={}", hex(t.as_bytes())));
+        let g = format!("{{\"zarr_format\":2{}{}}}", if rng.chance(1, 3) { format!(",\"attributes\":{}", rand_obj(&mut rng, 2, true)) } else { String::new() }, if rng.chance(1, 3) { format!(",\"extra\":{}", rand_value(&mut rng, 2)) } else { String::new() });
+        out.push(format!("c13 g2doc text={}", hex(g.as_bytes())));
+    }
+    // hierarchies
+    let nh = if thorough { 3000 } else { 300 };
+    for h in 0..nh {
+        let kind = match h % 5 { 0 => "fs", 1 => "os_mem", 2 => "od_mem", _ => "memory" };
+        out.push(format!("c13 cfg store={}", kind));
+        let names = ["a", "b", "c", "g1", "__x", "zarr", "x.y"];
+        let mut paths: Vec<String> = vec!["/".to_string()];
+        let nops = rng.range(4, if thorough { 40 } else { 20 });
+        for _ in 0..nops {
+            let sel = rng.below(20);
+            let parent = rng.pick(&paths).clone();
+            let child = if parent == "/" { format!("/{}", rng.pick(&names)) } else { format!("{}/{}", parent, rng.pick(&names)) };
+            match sel {
+                0..=5 => { let p = if rng.chance(1, 6) { "/".to_string() } else { child.clone() }; out.push(format!("c13 op mkgroup p={} v={}", p, if rng.chance(1, 4) { 2 } else { 3 })); if !paths.contains(&p) && p.matches('/').count() < 4 { paths.push(p); } }
+                6..=8 => { out.push(format!("c13 op mkarray p={} v={}", child, if rng.chance(1, 4) { 2 } else { 3 })); }
+                9 => { out.push(format!("c13 op rmmeta p={}", rng.pick(&paths))); }
+                10 => { let p = rng.pick(&paths).clone(); if p != "/" { out.push(format!("c13 op rmnode p={}", p)); } }
+                11 => { out.push(format!("c13 op stray k={}/{}", child.trim_start_matches('/'), rng.pick(&["data.bin", "x/y", "s/0/0"]))); }
+                12 => { out.push(format!("c13 op children p={} rec={}", rng.pick(&paths), rng.below(2))); }
+                13 => { out.push(format!("c13 op paths p={}", rng.pick(&paths))); }
+                14 => { out.push(format!("c13 op objs p={}", rng.pick(&paths))); }
+                15 => { out.push(format!("c13 op exists p={}", if rng.chance(1, 2) { child } else { parent })); }
+                _ => { out.push(format!("c13 op tree p={}", rng.pick(&paths))); }
+            }
+        }
+        out.push("c13 op keys".into());
+        for p in &paths { out.push(format!("c13 op children p={} rec=1", p)); out.push(format!("c13 op paths p={}", p)); out.push(format!("c13 op objs p={}", p)); }
+        out.push("c13 op tree p=/".into());
+    }
+    out
+}
